@@ -333,11 +333,11 @@ func Run(run *core.Run) {
 	disk := faults.NewDisk()
 	loaded := map[string]int{}
 	for i, f := range w.files {
-		disk.Files[f.path] = []byte(f.src)
+		disk.Put(f.path, []byte(f.src))
 		loaded[f.path] = i
 	}
 	for p, b := range w.bystanders {
-		disk.Files[p] = b
+		disk.Put(p, b)
 	}
 	tr := truth()
 	var all strings.Builder
@@ -369,8 +369,9 @@ func Run(run *core.Run) {
 			}
 		}
 		diskBefore := disk.Snapshot()
-		journalStart := len(disk.Journal)
-		writesBefore := disk.Writes
+		pre := disk.View()
+		journalStart := len(pre.Journal)
+		writesBefore := pre.Writes
 
 		// --- twin: expected bytes, computed lazily per Syntax position, printing each twin file once
 		twinBytes := map[int][]byte{}
@@ -433,11 +434,11 @@ func Run(run *core.Run) {
 		}
 		switch s.fault {
 		case fDiskError:
-			disk.Plan = &faults.DiskPlan{KthWrite: writesBefore + 1 + s.atFile}
+			disk.SetPlan(&faults.DiskPlan{KthWrite: writesBefore + 1 + s.atFile})
 		case fDiskTorn:
-			disk.Plan = &faults.DiskPlan{KthWrite: writesBefore + 1 + s.atFile, Torn: true, TornAt: s.tornAt}
+			disk.SetPlan(&faults.DiskPlan{KthWrite: writesBefore + 1 + s.atFile, Torn: true, TornAt: s.tornAt})
 		default:
-			disk.Plan = nil
+			disk.SetPlan(nil)
 		}
 
 		m := tr
@@ -452,8 +453,10 @@ func Run(run *core.Run) {
 		rw := &faults.Pkg{Inner: faults.NameResolver(w.resKind, m), Plan: plan}
 		var serr error
 		pi := core.Catch(func() { serr = subj.pkg.VerifSave(rw, disk.WriteFile) })
-		journal := disk.Journal[journalStart:]
-		run.Event("save#%d fault=%s err=%v writes=%d resolverFired=%d diskFired=%d", si, faultNames[s.fault], serr != nil, len(journal), rw.Fired, disk.Fired)
+		// everything below looks at one consistent copy of the disk taken when Save returned
+		dv := disk.View()
+		journal := dv.Journal[journalStart:]
+		run.Event("save#%d fault=%s err=%v writes=%d resolverFired=%d diskFired=%d", si, faultNames[s.fault], serr != nil, len(journal), rw.Fired, dv.Fired)
 		run.Count("saves")
 		run.Count("evaluations")
 		if pi != nil {
@@ -462,13 +465,13 @@ func Run(run *core.Run) {
 		}
 		caseKey := fmt.Sprintf("%s:save%d:%s:%d:%d", wkey, si, faultNames[s.fault], expectFailAt, s.atFile)
 		resolverFault := expectFailAt >= 0 && (rw.Fired > 0 || naturalMissing != "")
-		diskFault := disk.Plan != nil && disk.Fired > 0 && disk.Plan.KthWrite > writesBefore
+		diskFault := dv.Plan != nil && dv.Fired > 0 && dv.Plan.KthWrite > writesBefore
 		if resolverFault {
 			run.Count("fault-fired/" + faultNames[s.fault])
 		}
 		if diskFault {
 			run.Count("fault-fired/" + faultNames[s.fault])
-			disk.Fired = 0
+			disk.ResetFired()
 		}
 		if !resolverFault && !diskFault {
 			run.Count("fault-fired/none(save-without-fault)")
@@ -533,13 +536,13 @@ func Run(run *core.Run) {
 			if seen[p] {
 				continue
 			}
-			if !bytes.Equal(disk.Files[p], b) {
+			if !bytes.Equal(dv.Files[p], b) {
 				run.Fail("c20/disk/untouched-changed", "", "save#%d changed %q without a journaled write", si, p)
 				return
 			}
 		}
-		if len(disk.Files) != len(diskBefore) {
-			run.Fail("c20/write/foreign-path", "created", "save#%d created new files: %v", si, disk.Paths())
+		if len(dv.Files) != len(diskBefore) {
+			run.Fail("c20/write/foreign-path", "created", "save#%d created new files: %v", si, dv.Paths())
 			return
 		}
 
@@ -579,7 +582,7 @@ func Run(run *core.Run) {
 				run.Fail("c20/fault/no-error", "disk", "save#%d: WriteFile failed but Save returned nil", si)
 				return
 			}
-			if !errors.Is(serr, disk.Plan.Err) {
+			if !errors.Is(serr, dv.Plan.Err) {
 				run.Fail("c20/fault/error-not-wrapped", "disk", "save#%d: Save returned %q, which does not wrap the write error", si, serr)
 				return
 			}
@@ -603,6 +606,7 @@ func Run(run *core.Run) {
 		// files the subject restored beyond what the twin printed (after a disk error the
 		// implementation may or may not go on): printing is idempotent, so nothing to do.
 	}
+	final := disk.View()
 	// --- (f) after the last (fault-free) save the disk holds the twin's print of every file
 	for pos, fi := range w.order {
 		want, err := twinPrint(twin.pkg.Syntax[pos], faults.NameResolver(w.resKind, tr))
@@ -610,12 +614,12 @@ func Run(run *core.Run) {
 			run.Fail("c20/save/spurious-error", "print", "the import-managed print of %s fails without any fault: %v", w.files[fi].path, err)
 			return
 		}
-		if !bytes.Equal(disk.Files[w.files[fi].path], want) {
-			run.Fail("c20/disk/final-content", "", "after the history, %q on disk differs from the import-managed print of its file:\n--- disk\n%s\n--- expected\n%s", w.files[fi].path, disk.Files[w.files[fi].path], want)
+		if !bytes.Equal(final.Files[w.files[fi].path], want) {
+			run.Fail("c20/disk/final-content", "", "after the history, %q on disk differs from the import-managed print of its file:\n--- disk\n%s\n--- expected\n%s", w.files[fi].path, final.Files[w.files[fi].path], want)
 			return
 		}
-		if !subj.edited[fi] && !bytes.Equal(disk.Files[w.files[fi].path], []byte(w.files[fi].src)) {
-			if reindentedCloserComment(string(disk.Files[w.files[fi].path]), w.files[fi].src) {
+		if !subj.edited[fi] && !bytes.Equal(final.Files[w.files[fi].path], []byte(w.files[fi].src)) {
+			if reindentedCloserComment(string(final.Files[w.files[fi].path]), w.files[fi].src) {
 				run.SoftFail("c20/write/unedited-changed", knownReindent, "unedited %q differs on disk after the history (own-line comments before a closing delimiter moved one level in)", w.files[fi].path)
 			} else {
 				run.Fail("c20/disk/unedited-changed", "", "unedited %q differs on disk after the history", w.files[fi].path)
@@ -624,7 +628,7 @@ func Run(run *core.Run) {
 		}
 	}
 	for p, b := range w.bystanders {
-		if !bytes.Equal(disk.Files[p], b) {
+		if !bytes.Equal(final.Files[p], b) {
 			run.Fail("c20/disk/untouched-changed", "bystander", "bystander %q changed", p)
 			return
 		}
